@@ -1,12 +1,483 @@
-(* Namespace/PathsProofs.v — proofs about Paths.v. *)
-From PV Require Import Base.Prelude Namespace.Glob Namespace.NsBase Namespace.ListTree
-     Namespace.NsModel Namespace.MdModel Namespace.Paths.
+(* Namespace/PathsProofs.v — every name-derived path of the maildir backend
+   stays strictly inside the user's directory. *)
+From PV Require Import Base.Prelude Namespace.Glob Namespace.NsBase Namespace.NsBaseProofs
+     Namespace.ListTree Namespace.ListTreeProofs Namespace.NsModel Namespace.NsProofs
+     Namespace.MdModel Namespace.MdProofs Namespace.Paths.
 Require Import Lia.
 
 Definition R_U1 : pstr := [47;114;47;117;49]%N.           (* "/r/u1" *)
 Definition RC_U1 : list name := [[114]; [117;49]]%N.      (* ["r"; "u1"] *)
 
+(* ------------------------------------------------------------ strings *)
+Lemma clean_spec c : clean c = true ->
+  c <> [] /\ c <> s_dot /\ c <> s_dotdot /\ nodelim c.
+Proof.
+  unfold clean. intro H. apply andb_true_iff in H as [H1 H2].
+  apply negb_true_iff in H1. apply orb_false_iff in H1 as [H1 H1c]. apply orb_false_iff in H1 as [H1a H1b].
+  apply name_eqb_neq in H1a, H1b, H1c. repeat split; auto.
+  intro Hin. apply negb_true_iff in H2. assert (existsb (fun x => (x =? SLASH)%N) c = true); [|congruence].
+  apply existsb_exists. exists DELIM. split; [exact Hin|reflexivity].
+Qed.
+
+Lemma ends_with_slash_app a c x : ends_with_slash (a ++ c :: x) = ends_with_slash (c :: x).
+Proof.
+  induction a as [|y a IH]; [reflexivity|]. cbn [app]. 
+  change (ends_with_slash (y :: a ++ c :: x)) with
+      (match a ++ c :: x with [] => (y =? SLASH)%N | _ :: _ => ends_with_slash (a ++ c :: x) end).
+  destruct (a ++ c :: x) eqn:E; [destruct a; discriminate|]. exact IH.
+Qed.
+
+Lemma ends_with_slash_nodelim c : c <> [] -> nodelim c -> ends_with_slash c = false.
+Proof.
+  induction c as [|x c IH]; intros Hne Hnd; [congruence|].
+  destruct c as [|y c].
+  - cbn. apply N.eqb_neq. intros ->. apply Hnd. now left.
+  - change (ends_with_slash (x :: y :: c)) with (ends_with_slash (y :: c)).
+    apply IH; [discriminate|]. intro H. apply Hnd. now right.
+Qed.
+
+Lemma root_str_snoc rc c : root_str (rc ++ [c]) = root_str rc ++ SLASH :: c.
+Proof. unfold root_str. rewrite flat_map_app. cbn [flat_map]. now rewrite app_nil_r. Qed.
+
+Lemma root_str_no_trailing rc : rc <> [] -> Forall (fun c => clean c = true) rc ->
+  ends_with_slash (root_str rc) = false /\ root_str rc <> [].
+Proof.
+  intros Hne HF. destruct (exists_last Hne) as (rc' & c & ->).
+  rewrite root_str_snoc. apply Forall_app in HF as [_ HF]. inversion HF as [|? ? Hc _]; subst.
+  apply clean_spec in Hc as (Hc1 & _ & _ & Hc4). split.
+  - destruct c as [|x c]; [congruence|].
+    change (root_str rc' ++ SLASH :: x :: c) with (root_str rc' ++ SLASH :: (x :: c)).
+    rewrite ends_with_slash_app. change (ends_with_slash (SLASH :: x :: c)) with (ends_with_slash (x :: c)).
+    now apply ends_with_slash_nodelim.
+  - destruct (root_str rc'); discriminate.
+Qed.
+
+(* joining one clean component *)
+Lemma path_join_clean rc c : rc <> [] -> Forall (fun c => clean c = true) rc -> clean c = true ->
+  path_join (root_str rc) c = root_str (rc ++ [c]).
+Proof.
+  intros Hne HF Hc. destruct (root_str_no_trailing rc Hne HF) as [He Hn].
+  apply clean_spec in Hc as (Hc1 & _ & _ & Hc4). rewrite root_str_snoc.
+  unfold path_join. destruct c as [|x c]; [congruence|].
+  assert ((x =? SLASH)%N = false) by (apply N.eqb_neq; intros ->; apply Hc4; now left).
+  rewrite H. destruct (root_str rc); [congruence|]. now rewrite He.
+Qed.
+
+Lemma path_joins_clean parts : forall rc, rc <> [] -> Forall (fun c => clean c = true) rc ->
+  Forall (fun c => clean c = true) parts ->
+  path_joins (root_str rc) parts = root_str (rc ++ parts).
+Proof.
+  unfold path_joins. induction parts as [|p parts IH]; intros rc Hne HF HP; cbn [fold_left].
+  - now rewrite app_nil_r.
+  - inversion HP as [|? ? Hp HP']; subst. rewrite path_join_clean by assumption.
+    rewrite IH; [now rewrite <- app_assoc| destruct rc; discriminate | apply Forall_app; auto | exact HP'].
+Qed.
+
+(* normpath of '/' + '/'.join(clean components) *)
+Lemma split_root_str cs : Forall (fun c => clean c = true) cs -> split (root_str cs) = [] :: cs.
+Proof.
+  induction cs as [|c cs IH]; intro HF; [reflexivity|].
+  inversion HF as [|? ? Hc HF']; subst. apply clean_spec in Hc as (_ & _ & _ & Hc4).
+  change (root_str (c :: cs)) with ([] ++ DELIM :: (c ++ root_str cs)).
+  rewrite split_app_delim. cbn [split app]. f_equal.
+  destruct cs as [|d cs].
+  - cbn [root_str flat_map]. rewrite app_nil_r. now apply split_nodelim_single.
+  - change (root_str (d :: cs)) with (DELIM :: (d ++ root_str cs)).
+    rewrite split_app_delim, split_nodelim_single by exact Hc4.
+    specialize (IH HF'). change (root_str (d :: cs)) with ([] ++ DELIM :: (d ++ root_str cs)) in IH.
+    rewrite split_app_delim in IH. cbn [split app] in IH. injection IH as IH. now rewrite IH.
+Qed.
+
+Lemma norm_stack_clean cs : forall acc, Forall (fun c => clean c = true) cs ->
+  norm_stack cs acc = rev acc ++ cs.
+Proof.
+  induction cs as [|c cs IH]; intros acc HF; cbn [norm_stack]; [now rewrite app_nil_r|].
+  inversion HF as [|? ? Hc HF']; subst. apply clean_spec in Hc as (H1 & H2 & H3 & _).
+  rewrite (proj2 (name_eqb_neq _ _) H1), (proj2 (name_eqb_neq _ _) H2), (proj2 (name_eqb_neq _ _) H3).
+  cbn [orb]. rewrite IH by exact HF'. cbn [rev]. now rewrite <- app_assoc.
+Qed.
+
+Lemma normpath_root_str cs : Forall (fun c => clean c = true) cs -> normpath (root_str cs) = cs.
+Proof.
+  intro HF. unfold normpath. rewrite split_root_str by exact HF. cbn [norm_stack name_eqb eqb_list orb].
+  now rewrite norm_stack_clean.
+Qed.
+
+(* ------------------------------------------------------------ the layouts *)
+Lemma valid_base_clean p : valid_part_base p = true -> clean p = true.
+Proof.
+  unfold valid_part_base, clean. intro H. apply andb_true_iff in H as [H _]. exact H.
+Qed.
+
+Lemma valid_clean l p : valid_part l p = true -> clean p = true.
+Proof. destruct l; cbn [valid_part]; intro H; apply andb_true_iff in H as [_ H]; now apply valid_base_clean. Qed.
+
+Lemma valid_plus_nodot p : valid_part LPlus p = true -> ~ In DOT p /\ p <> [].
+Proof.
+  cbn [valid_part]. intro H. apply andb_true_iff in H as [H1 H2]. split.
+  - intro Hin. apply negb_true_iff in H1.
+    assert (existsb (fun c => (c =? DOT)%N) p = true); [|congruence].
+    apply existsb_exists. exists DOT. split; [exact Hin|reflexivity].
+  - apply valid_base_clean, clean_spec in H2. tauto.
+Qed.
+
+Lemma join_dot_props parts : parts <> [] -> Forall (fun p => valid_part LPlus p = true) parts ->
+  (exists x r, join_dot parts = x :: r /\ x <> DOT) /\ ~ In DELIM (join_dot parts).
+Proof.
+  induction parts as [|p parts IH]; intros Hne HF; [congruence|].
+  inversion HF as [|? ? Hp HF']; subst.
+  destruct (valid_plus_nodot p Hp) as [Hd Hn].
+  apply valid_clean, clean_spec in Hp as (_ & _ & _ & Hnd).
+  destruct parts as [|q parts].
+  - cbn [join_dot]. split; [|exact Hnd]. destruct p as [|x r]; [congruence|].
+    exists x, r. split; [reflexivity|]. intros ->. apply Hd. now left.
+  - assert (Hne' : q :: parts <> []) by discriminate. destruct (IH Hne' HF') as [_ I2].
+    change (join_dot (p :: q :: parts)) with (p ++ DOT :: join_dot (q :: parts)). split.
+    + destruct p as [|x r]; [congruence|]. exists x, (r ++ DOT :: join_dot (q :: parts)).
+      split; [reflexivity|]. intros ->. apply Hd. now left.
+    + rewrite in_app_iff. intros [H|[H|H]]; [now apply Hnd|discriminate H|now apply I2].
+Qed.
+
+Lemma subdir_clean parts : parts <> [] -> Forall (fun p => valid_part LPlus p = true) parts ->
+  clean (get_subdir parts) = true.
+Proof.
+  intros Hne HF. destruct (join_dot_props parts Hne HF) as [(x & r & E & Hx) Hnd].
+  unfold get_subdir. destruct parts; [congruence|]. rewrite E. unfold clean.
+  apply andb_true_iff. split.
+  - apply negb_true_iff.
+    assert (H1 : DOT :: x :: r <> []) by discriminate.
+    assert (H2 : DOT :: x :: r <> s_dot) by (unfold s_dot; discriminate).
+    assert (H3 : DOT :: x :: r <> s_dotdot).
+    { unfold s_dotdot. intro H. injection H as H _. apply Hx. exact H. }
+    now rewrite (proj2 (name_eqb_neq _ _) H1), (proj2 (name_eqb_neq _ _) H2), (proj2 (name_eqb_neq _ _) H3).
+  - apply negb_true_iff. destruct (existsb (fun x0 => (x0 =? SLASH)%N) (DOT :: x :: r)) eqn:Ex; [|reflexivity].
+    apply existsb_exists in Ex as (y & Hy & Ey). apply N.eqb_eq in Ey. subst y.
+    destruct Hy as [Hy|Hy]; [discriminate Hy|]. exfalso. apply Hnd. rewrite E. exact Hy.
+Qed.
+
+(* the heart of C08: a guarded name stays strictly inside the user's root *)
+Theorem get_path_confined l rc parts :
+  rc <> [] -> Forall (fun c => clean c = true) rc ->
+  parts <> [] -> Forall (fun p => valid_part l p = true) parts ->
+  exists extra, extra <> [] /\ normpath (get_path l (root_str rc) parts) = rc ++ extra.
+Proof.
+  intros Hne HF Hp HV. destruct l; cbn [get_path].
+  - exists [get_subdir parts]. split; [discriminate|].
+    pose proof (subdir_clean parts Hp HV) as Hc.
+    rewrite path_join_clean by assumption. apply normpath_root_str.
+    apply Forall_app. split; [exact HF|]. constructor; [exact Hc|constructor].
+  - exists parts. split; [exact Hp|].
+    assert (HC : Forall (fun c => clean c = true) parts).
+    { eapply Forall_impl; [|exact HV]. intros a. apply valid_clean. }
+    rewrite path_joins_clean by assumption. apply normpath_root_str. apply Forall_app. auto.
+Qed.
+
+Corollary get_path_strictly_inside l rc parts :
+  rc <> [] -> Forall (fun c => clean c = true) rc ->
+  parts <> [] -> Forall (fun p => valid_part l p = true) parts ->
+  strictly_inside rc (normpath (get_path l (root_str rc) parts)).
+Proof. intros. destruct (get_path_confined l rc parts) as (e & He & E); auto. exists e. auto. Qed.
+
+(* ------------------------------------------------------------ refutations *)
 (* without the guard of layout._split: the names ".", "" and "../u2" *)
-Lemma legacy_dot_escapes :
-  normpath (legacy_get_path LPlus R_U1 [46]%N) = [[114]]%N.
+Lemma legacy_dot_escapes : normpath (legacy_get_path LPlus R_U1 [46]%N) = [[114]]%N.
 Proof. vm_compute. reflexivity. Qed.
+Lemma legacy_slash_escapes : normpath (legacy_get_path LPlus R_U1 [47]%N) = [[114]]%N.
+Proof. vm_compute. reflexivity. Qed.
+Lemma legacy_empty_is_root : normpath (legacy_get_path LPlus R_U1 []) = RC_U1.
+Proof. vm_compute. reflexivity. Qed.
+Lemma legacy_dotdot_fs : normpath (legacy_get_path LFs R_U1 [46;46;47;117;50]%N) = [[114]; [117;50]]%N.
+Proof. vm_compute. reflexivity. Qed.
+Lemma legacy_refuted :
+  exists l n, n <> INBOX /\ ~ strictly_inside RC_U1 (normpath (legacy_get_path l R_U1 n)).
+Proof.
+  exists LPlus, [46]%N. split; [discriminate|]. rewrite legacy_dot_escapes.
+  intros (rest & _ & E). discriminate E.
+Qed.
+
+(* ------------------------------------------------------------ valid folder sets *)
+Definition vparts (l : layout) (parts : path) : Prop :=
+  parts <> [] /\ Forall (fun p => valid_part l p = true) parts.
+Definition fvalid (l : layout) (st : mstate) : Prop :=
+  forall k, In k (map fst (x_folders st)) -> vparts l (split k).
+
+Lemma lsplit_Some l n parts : lsplit l n = Some parts -> n <> INBOX -> vparts l parts /\ parts = split n.
+Proof.
+  unfold lsplit. intros H Hn. rewrite (proj2 (name_eqb_neq _ _) Hn) in H.
+  destruct (forallb (valid_part l) (split n)) eqn:E; [|discriminate]. injection H as <-.
+  split; [|reflexivity]. split; [apply split_nonempty|]. apply Forall_forall. now apply forallb_forall.
+Qed.
+
+Lemma firstn_vparts l parts k : vparts l parts -> 1 <= k -> vparts l (firstn k parts).
+Proof.
+  intros [Hne HF] Hk. split.
+  - destruct parts as [|p parts]; [congruence|]. destruct k as [|k]; [lia|]. cbn [firstn]. discriminate.
+  - apply Forall_forall. intros x Hx. apply firstn_In' in Hx.
+    rewrite Forall_forall in HF. now apply HF.
+Qed.
+
+Lemma vparts_split_join l parts : vparts l parts -> split (join parts) = parts.
+Proof.
+  intros [Hne HF]. apply split_join; [exact Hne|]. eapply Forall_impl; [|exact HF].
+  intros a Ha. apply valid_clean, clean_spec in Ha. tauto.
+Qed.
+
+Lemma vparts_app_suffix l pb q rest pre :
+  vparts l pb -> vparts l q -> q = pre ++ rest -> vparts l (pb ++ rest).
+Proof.
+  intros [Hb Fb] [_ Fq] ->. split; [destruct pb; [congruence|discriminate]|].
+  apply Forall_app in Fq as [_ Fr]. apply Forall_app. auto.
+Qed.
+
+Lemma aset_keys_incl {V} k (v : V) f x : In x (map fst (aset k v f)) -> x = k \/ In x (map fst f).
+Proof.
+  rewrite aset_keys. destruct (amem k f); [now right|]. rewrite in_app_iff. intros [H|[H|[]]]; auto.
+Qed.
+
+Lemma add_superiors_keys uid0 ks parts : forall f nx x,
+  In x (map fst (fst (add_superiors uid0 ks parts f nx))) ->
+  In x (map fst f) \/ exists k, In k ks /\ x = join (firstn k parts).
+Proof.
+  induction ks as [|k ks IH]; intros f nx x; cbn [add_superiors fst]; [now left|].
+  destruct (amem (join (firstn k parts)) f).
+  - intro H. apply IH in H as [H|(k' & Hk & ->)]; [now left|right; exists k'; split; [now right|reflexivity]].
+  - intro H. apply IH in H as [H|(k' & Hk & ->)].
+    + apply aset_keys_incl in H as [->|H]; [right; exists k; split; [now left|reflexivity]|now left].
+    + right. exists k'. split; [now right|reflexivity].
+Qed.
+
+Lemma fvalid_step uid0 l st o : fvalid l st -> fvalid l (fst (mstep uid0 l st o)).
+Proof.
+  intro Hv. destruct (o_cond (snd (mstep uid0 l st o))) eqn:Ec.
+  2:{ now rewrite (m_error_no_effect uid0 l st o code Ec). }
+  - destruct o; revert Ec; cbn [mstep]; cbv zeta.
+    + (* create *)
+      destruct (name_eqb (norm n) INBOX) eqn:En; [cbn; discriminate|]. apply name_eqb_neq in En.
+      destruct (lsplit l (norm n)) as [parts|] eqn:El; [|cbn; discriminate].
+      destruct (negb (ancestors_ok st parts)); [cbn; discriminate|].
+      destruct (amem (norm n) (x_folders st)); [cbn; discriminate|].
+      destruct (negb (parent_ok l st parts)); [cbn; discriminate|]. intros _.
+      cbn [fst x_with]. intros k Hk. cbn [x_folders] in Hk. apply aset_keys_incl in Hk as [->|Hk]; [|auto].
+      destruct (lsplit_Some _ _ _ El En) as [Hp ->]. exact Hp.
+    + (* delete *)
+      destruct (name_eqb (norm n) INBOX); [cbn; discriminate|].
+      destruct (lsplit l (norm n)); [|cbn; discriminate].
+      destruct (negb (amem (norm n) (x_folders st))); [cbn; discriminate|].
+      destruct l; [|destruct (has_child_folder st p); [cbn; discriminate|]]; intros _;
+        cbn [fst x_with]; intros k Hk; cbn [x_folders] in Hk; apply adel_keys_incl in Hk; auto.
+    + (* rename *)
+      destruct (name_eqb (norm b) INBOX) eqn:Eb; [cbn; discriminate|]. apply name_eqb_neq in Eb.
+      destruct (name_eqb (norm a) INBOX) eqn:Ea; [cbn; discriminate|]. apply name_eqb_neq in Ea.
+      destruct (starts_with (norm a ++ [DELIM]) (norm b)); [cbn; discriminate|].
+      destruct (tget (x_tree st) (norm a)); [|cbn; discriminate].
+      destruct (tget (x_tree st) (norm b)); [cbn; discriminate|].
+      destruct (lsplit l (norm a)) as [pa|] eqn:Ela; [|cbn; discriminate].
+      destruct (lsplit l (norm b)) as [pb|] eqn:Elb; [|cbn; discriminate].
+      destruct (lsplit_Some _ _ _ Ela Ea) as [Hpa Epa]. destruct (lsplit_Some _ _ _ Elb Eb) as [Hpb Epb].
+      destruct (add_superiors uid0 (seq 1 (length pb - 1)) pb (x_folders st) (x_next st)) as [f1 nx] eqn:Eadd.
+      assert (Hf1 : forall k, In k (map fst f1) -> vparts l (split k)).
+      { intros k Hk. pose proof (add_superiors_keys uid0 (seq 1 (length pb - 1)) pb (x_folders st) (x_next st) k) as H.
+        rewrite Eadd in H. cbn [fst] in H. destruct (H Hk) as [H1|(i & Hi & ->)]; [auto|].
+        apply in_seq in Hi. rewrite (vparts_split_join l); apply firstn_vparts; auto; lia. }
+      assert (Hmv : forall k, In k (map fst (move_folders (norm a) (norm b) f1)) -> vparts l (split k)).
+      { intros k Hk. destruct (move_folders_spec (norm a) (norm b) f1) as [_ M2]. rewrite M2 in Hk.
+        apply in_map_iff in Hk as (k0 & <- & Hk0). unfold move_key.
+        destruct (drop_prefix (split (norm a)) (split k0)) as [rest|] eqn:Ed; [|auto].
+        apply drop_prefix_spec in Ed.
+        assert (HFr : Forall nodelim rest).
+        { pose proof (split_nodelim k0) as H. rewrite Ed in H. apply Forall_app in H. tauto. }
+        rewrite split_sfx by exact HFr. rewrite <- Epb.
+        eapply vparts_app_suffix; [exact Hpb|apply (Hf1 k0 Hk0)|exact Ed]. }
+      destruct l.
+      * intros _. cbn [fst x_with]. intros k Hk. cbn [x_folders] in Hk. auto.
+      * destruct (amem (norm a) f1); [|cbn; discriminate]. intros _.
+        cbn [fst x_with]. intros k Hk. cbn [x_folders] in Hk. auto.
+    + destruct (lsplit l (norm n)); intros _; cbn [fst]; intros k Hk; cbn [x_folders] in Hk; auto.
+    + destruct (lsplit l (norm n)); intros _; cbn [fst]; intros k Hk; cbn [x_folders] in Hk; auto.
+    + intros _. exact Hv.
+    + intros _. exact Hv.
+    + destruct (x_get l st (norm n)); intros _; exact Hv.
+    + destruct (x_get l st (norm n)); intros _; exact Hv.
+    + (* append *)
+      unfold x_get. destruct (name_eqb (norm n) INBOX) eqn:En.
+      * intros _. cbn [fst]. unfold x_append. rewrite En. intros k Hk. cbn [x_folders] in Hk. auto.
+      * destruct (lsplit l (norm n)); [|intros _; exact Hv].
+        destruct (alookup (norm n) (x_folders st)) eqn:Eg; [|intros _; exact Hv].
+        intros _. cbn [fst]. unfold x_append. rewrite En. intros k Hk. cbn [x_with x_folders] in Hk.
+        apply aset_keys_incl in Hk as [->|Hk]; [|auto]. apply Hv.
+        apply amem_true. unfold amem. now rewrite Eg.
+  - (* CExc: the failing os.rename of the fs layout, after the superiors were created *)
+    destruct o; revert Ec; cbn [mstep]; cbv zeta;
+      try (repeat match goal with
+                  | |- context [if ?c then _ else _] => destruct c
+                  | |- context [match lsplit ?l ?n with _ => _ end] => destruct (lsplit l n)
+                  | |- context [match x_get ?l ?s ?n with _ => _ end] => destruct (x_get l s n)
+                  | |- context [match l with _ => _ end] => destruct l
+                  end; unfold list_out; cbn; discriminate).
+    + destruct (name_eqb (norm b) INBOX) eqn:Eb; [cbn; discriminate|]. apply name_eqb_neq in Eb.
+      destruct (name_eqb (norm a) INBOX); [cbn; discriminate|].
+      destruct (starts_with (norm a ++ [DELIM]) (norm b)); [cbn; discriminate|].
+      destruct (tget (x_tree st) (norm a)); [|cbn; discriminate].
+      destruct (tget (x_tree st) (norm b)); [cbn; discriminate|].
+      destruct (lsplit l (norm a)) as [pa|]; [|cbn; discriminate].
+      destruct (lsplit l (norm b)) as [pb|] eqn:Elb; [|cbn; discriminate].
+      destruct (lsplit_Some _ _ _ Elb Eb) as [Hpb Epb].
+      destruct (add_superiors uid0 (seq 1 (length pb - 1)) pb (x_folders st) (x_next st)) as [f1 nx] eqn:Eadd.
+      destruct l; [cbn; discriminate|]. destruct (amem (norm a) f1); [cbn; discriminate|]. intros _.
+      cbn [fst x_with]. intros k Hk. cbn [x_folders] in Hk.
+      pose proof (add_superiors_keys uid0 (seq 1 (length pb - 1)) pb (x_folders st) (x_next st) k) as H.
+      rewrite Eadd in H. cbn [fst] in H. destruct (H Hk) as [H1|(i & Hi & ->)]; [auto|].
+      apply in_seq in Hi. rewrite (vparts_split_join LFs); apply firstn_vparts; auto; lia.
+Qed.
+
+(* ------------------------------------------------------------ anchors *)
+Lemma checked_prefixes_in l root st parts ks p :
+  In p (fst (checked_prefixes l root st parts ks)) -> exists k, In k ks /\ p = get_path l root (firstn k parts).
+Proof.
+  induction ks as [|k ks IH]; cbn [checked_prefixes fst]; [intros []|].
+  destruct (is_dir st (firstn k parts)).
+  - destruct (checked_prefixes l root st parts ks) as [pre okk]. cbn [fst] in *.
+    intros [<-|H]; [exists k; split; [now left|reflexivity]|].
+    destruct (IH H) as (k' & Hk & ->). exists k'. split; [now right|reflexivity].
+  - cbn [fst]. intros [<-|[]]. exists k. split; [now left|reflexivity].
+Qed.
+
+Lemma folder_paths_valid l root st p : fvalid l st -> In p (folder_paths l root st) ->
+  exists parts, vparts l parts /\ p = get_path l root parts.
+Proof.
+  intros Hv H. unfold folder_paths in H. apply in_map_iff in H as ([k v] & <- & Hk).
+  exists (split k). split; [|reflexivity]. apply Hv. apply in_map_iff. exists (k, v). auto.
+Qed.
+
+Lemma anchors_valid l root st c p : fvalid l st -> In p (paths_touched l root st c) ->
+  exists parts, vparts l parts /\ p = get_path l root parts.
+Proof.
+  intros Hv. unfold paths_touched. destruct c; cbn [anchors]; cbv zeta.
+  - (* create *)
+    destruct (name_eqb (norm n) INBOX) eqn:En; [cbn; tauto|]. apply name_eqb_neq in En.
+    destruct (lsplit l (norm n)) as [parts|] eqn:El; [|cbn; tauto].
+    destruct (lsplit_Some _ _ _ El En) as [Hp _].
+    destruct (checked_prefixes l root st parts (seq 1 (length parts - 2))) as [pre okk] eqn:Ecp.
+    assert (Hpre : forall q, In q pre -> exists parts0, vparts l parts0 /\ q = get_path l root parts0).
+    { intros q Hq. pose proof (checked_prefixes_in l root st parts (seq 1 (length parts - 2)) q) as H.
+      rewrite Ecp in H. destruct (H Hq) as (k & Hk & ->). apply in_seq in Hk.
+      exists (firstn k parts). split; [apply firstn_vparts; [exact Hp|lia]|reflexivity]. }
+    destruct okk; cbn [fst snd]; rewrite app_nil_r; [|exact (Hpre p)].
+    rewrite in_app_iff. intros [H|[<-|[]]]; [now apply Hpre|]. exists parts. auto.
+  - (* delete *)
+    destruct (name_eqb (norm n) INBOX) eqn:En; [cbn; tauto|]. apply name_eqb_neq in En.
+    destruct (lsplit l (norm n)) as [parts|] eqn:El; [|cbn; tauto].
+    destruct (lsplit_Some _ _ _ El En) as [Hp _]. cbn [fst snd app]. intros [<-|H]; [exists parts; auto|].
+    destruct l; [contradiction|]. apply in_map_iff in H as ([k v] & <- & Hk). apply filter_In in Hk as [Hk _].
+    exists (split k). split; [|reflexivity]. apply Hv. apply in_map_iff. exists (k, v). auto.
+  - (* rename *)
+    destruct (name_eqb (norm b) INBOX || name_eqb (norm a) INBOX || starts_with (norm a ++ [DELIM]) (norm b)) eqn:Eg;
+      [cbn; tauto|].
+    apply orb_false_iff in Eg as [Eg _]. apply orb_false_iff in Eg as [Eb Ea].
+    apply name_eqb_neq in Ea, Eb.
+    assert (Hfl : forall q, In q (folder_paths l root st ++ []) ->
+                            exists parts, vparts l parts /\ q = get_path l root parts).
+    { intros q Hq. rewrite app_nil_r in Hq. now apply (folder_paths_valid l root st). }
+    destruct (tget (x_tree st) (norm a)); [|exact (Hfl p)].
+    destruct (tget (x_tree st) (norm b)); [exact (Hfl p)|].
+    destruct (lsplit l (norm a)) as [pa|] eqn:Ela; [|exact (Hfl p)].
+    destruct (lsplit l (norm b)) as [pb|] eqn:Elb; [|exact (Hfl p)].
+    destruct (lsplit_Some _ _ _ Ela Ea) as [Hpa Epa]. destruct (lsplit_Some _ _ _ Elb Eb) as [Hpb Epb].
+    cbn [fst snd]. rewrite !in_app_iff. intros [[H|[H|H]]|H].
+    + now apply (folder_paths_valid l root st).
+    + apply in_map_iff in H as (k & <- & Hk). apply in_seq in Hk.
+      exists (firstn k pb). split; [apply firstn_vparts; [exact Hpb|lia]|reflexivity].
+    + destruct l.
+      * apply in_flat_map in H as ([k v] & Hk & H). cbn [fst] in H.
+        destruct (drop_prefix pa (split k)) as [rest|] eqn:Ed; [|contradiction].
+        destruct H as [<-|[]]. apply drop_prefix_spec in Ed.
+        exists (pb ++ rest). split; [|reflexivity].
+        eapply vparts_app_suffix; [exact Hpb| |exact Ed]. apply Hv. apply in_map_iff. exists (k, v). auto.
+      * destruct H as [<-|[]]. exists pb. auto.
+    + destruct l; [contradiction|]. destruct H as [<-|[]]. exists pa. auto.
+  - cbn. tauto.
+  - cbn. tauto.
+  - destruct pat; [cbn; tauto|]. cbn [fst snd]. rewrite app_nil_r. now apply (folder_paths_valid l root st).
+  - cbn. tauto.
+  - cbn [fst snd]. rewrite app_nil_r. unfold name_anchor.
+    destruct (name_eqb (norm n) INBOX) eqn:En; [cbn; tauto|]. apply name_eqb_neq in En.
+    destruct (lsplit l (norm n)) as [parts|] eqn:El; [|cbn; tauto].
+    destruct (lsplit_Some _ _ _ El En) as [Hp _]. intros [<-|[]]. exists parts. auto.
+  - cbn [fst snd]. rewrite app_nil_r. unfold name_anchor.
+    destruct (name_eqb (norm n) INBOX) eqn:En; [cbn; tauto|]. apply name_eqb_neq in En.
+    destruct (lsplit l (norm n)) as [parts|] eqn:El; [|cbn; tauto].
+    destruct (lsplit_Some _ _ _ El En) as [Hp _]. intros [<-|[]]. exists parts. auto.
+  - cbn [fst snd]. rewrite app_nil_r. unfold name_anchor.
+    destruct (name_eqb (norm n) INBOX) eqn:En; [cbn; tauto|]. apply name_eqb_neq in En.
+    destruct (lsplit l (norm n)) as [parts|] eqn:El; [|cbn; tauto].
+    destruct (lsplit_Some _ _ _ El En) as [Hp _]. intros [<-|[]]. exists parts. auto.
+  - cbn [fst snd]. rewrite app_nil_r. unfold name_anchor.
+    destruct (name_eqb (norm n) INBOX) eqn:En; [cbn; tauto|]. apply name_eqb_neq in En.
+    destruct (lsplit l (norm n)) as [parts|] eqn:El; [|cbn; tauto].
+    destruct (lsplit_Some _ _ _ El En) as [Hp _]. intros [<-|[]]. exists parts. auto.
+Qed.
+
+Definition root_ok (rc : list name) : Prop := rc <> [] /\ Forall (fun c => clean c = true) rc.
+
+Definition md_init : mstate :=
+  {| x_inbox := {| m_id := 0; m_msgs := 0; m_next := 1; m_ro := false |};
+     x_folders := []; x_subs := []; x_next := 1 |}.
+
+Lemma fvalid_run uid0 l prog : forall st, fvalid l st -> fvalid l (mrun uid0 l st prog).
+Proof.
+  unfold mrun. induction prog as [|o prog IH]; intros st H; cbn [fold_left]; [exact H|].
+  apply IH. now apply fvalid_step.
+Qed.
+
+(* every name-derived directory of every command, in every state a program of
+   commands can reach, lies strictly inside the user's directory *)
+Theorem confined_all uid0 l rc prog c p : root_ok rc ->
+  In p (paths_touched l (root_str rc) (mrun uid0 l md_init prog) c) ->
+  strictly_inside rc (normpath p).
+Proof.
+  intros [Hne HF] H.
+  assert (Hv : fvalid l (mrun uid0 l md_init prog)).
+  { apply fvalid_run. intros k []. }
+  destruct (anchors_valid _ _ _ _ _ Hv H) as (parts & [Hp HV] & ->).
+  now apply get_path_strictly_inside.
+Qed.
+
+(* extending an inside path by server-chosen clean components stays inside *)
+Lemma inside_extend rc q c : strictly_inside rc q -> strictly_inside rc (q ++ [c]).
+Proof. intros (rest & Hr & ->). exists (rest ++ [c]). split; [destruct rest; discriminate|now rewrite app_assoc]. Qed.
+
+(* DELETE never removes, RENAME never moves, the user's directory itself *)
+Theorem delete_target_inside l rc n0 p : root_ok rc ->
+  In p (delete_target l (root_str rc) n0) -> strictly_inside rc (normpath p).
+Proof.
+  intros [Hne HF]. unfold delete_target.
+  destruct (name_eqb (norm n0) INBOX) eqn:En; [intros []|]. apply name_eqb_neq in En.
+  destruct (lsplit l (norm n0)) as [parts|] eqn:El; [|intros []].
+  destruct (lsplit_Some _ _ _ El En) as [[Hp HV] _]. intros [<-|[]]. now apply get_path_strictly_inside.
+Qed.
+
+Theorem rename_targets_inside l rc a0 b0 p : root_ok rc ->
+  In p (rename_targets l (root_str rc) a0 b0) -> strictly_inside rc (normpath p).
+Proof.
+  intros [Hne HF]. unfold rename_targets.
+  destruct (name_eqb (norm b0) INBOX || name_eqb (norm a0) INBOX) eqn:Eg; [intros []|].
+  apply orb_false_iff in Eg as [Eb Ea]. apply name_eqb_neq in Ea, Eb.
+  destruct (lsplit l (norm a0)) as [pa|] eqn:Ela; [|intros []].
+  destruct (lsplit l (norm b0)) as [pb|] eqn:Elb; [|intros []].
+  destruct (lsplit_Some _ _ _ Ela Ea) as [[Hpa HVa] _]. destruct (lsplit_Some _ _ _ Elb Eb) as [[Hpb HVb] _].
+  intros [<-|[<-|[]]]; now apply get_path_strictly_inside.
+Qed.
+
+(* the guard is exactly what the layouts need: each refused shape escapes *)
+Lemma root_ok_u1 : root_ok RC_U1.
+Proof. split; [discriminate|]. repeat constructor. Qed.
+
+(* ------------------------------------------------------------ dict isolation *)
+Theorem dict_isolation uid0 (s : dstore) (u v : name) (prog : list op) :
+  u <> v ->
+  alookup v (fold_left (fun s o => dstore_step uid0 s u o) prog s) = alookup v s.
+Proof.
+  intro Huv. revert s. induction prog as [|o prog IH]; intro s; cbn [fold_left]; [reflexivity|].
+  rewrite IH. unfold dstore_step. destruct (alookup u s); [|reflexivity].
+  rewrite alookup_aset. assert (v <> u) by congruence. now rewrite (proj2 (name_eqb_neq _ _) H).
+Qed.
